@@ -1,12 +1,158 @@
-(* C12 — placeholder while the proofs are being rebuilt on the repaired scan prefix *)
-From Coq Require Import List ZArith Lia Bool Arith.
+(* C12 — stored VAAs come back byte-exact and emitter queries never mix streams.
+   Model: model/Db.v (store = ordered key/value list; keys rendered with the formats GENERATED from structs.go; the gap
+   scan seeks with the prefix GENERATED from db.go).  Histories: [store_all [] vs] = the store after StoreSignedVAA was
+   called on the VAAs [vs] in order (unsigned ones panic and change nothing).  [wf v] = the VAA is representable
+   (C05's range: 16-bit chains, 32-byte address, 64-bit sequence, ...), [last_stored vs i] = the last signed VAA of the
+   history whose identifier is i, [present vs c a t q] = some signed VAA of the history has emitter chain c, emitter
+   address a, target chain t and sequence q. *)
+From Coq Require Import List ZArith Lia Bool Arith Sorting.Sorted.
 From Coq Require Import Strings.Byte.
-From WH Require Import lib.Bytes lib.Digits gen.Extracted model.Vaa model.Db.
+From WH Require Import lib.Bytes lib.Digits gen.Extracted model.Vaa model.Db proofs.DbProofs.
 Import ListNotations.
 Open Scope Z_scope.
 
-Example C12_gap_prefix_separates_2_from_255 :
-  let a := repeat x00 32 in
-  prefix_of (gap_prefix 4 a 2) (key {| i_ec := 4; i_ea := a; i_tc := 255; i_seq := 7 |}) = false.
-Proof. vm_compute. reflexivity. Qed.
-Print Assumptions C12_gap_prefix_separates_2_from_255.
+(* ---------------------------------------------------------------- keys *)
+(* two identifiers are stored under the same key only if they are the same identifier *)
+Theorem C12_key_injective : forall i j, idwf i -> idwf j -> key i = key j -> i = j.
+Proof. exact key_inj. Qed.
+
+(* the store is a map: a write is seen under its own key and under no other *)
+Theorem C12_get_put : forall s k v k', get (put s k v) k' = if bytes_eqb k k' then Some v else get s k'.
+Proof. exact get_put. Qed.
+
+(* ---------------------------------------------------------------- lookups *)
+(* local lookup after ANY history: byte for byte the last VAA stored under exactly that identifier; an identifier under
+   which nothing was stored yields not-found *)
+Theorem C12_lookup_exact : forall vs i, Forall wf vs -> idwf i ->
+  get_signed_vaa_bytes (store_all [] vs) i = match last_stored vs i with Some v => Found (marshal v) | None => NotFound end.
+Proof. exact lookup_history. Qed.
+
+(* one store changes the answer for its own identifier and for no other (any store state) *)
+Theorem C12_store_changes_only_its_id : forall s v i, wf v -> idwf i -> signed v = true ->
+  exists s', store_vaa s v = Stored s' /\
+  get_signed_vaa_bytes s' i = if id_eqb (id_of v) i then Found (marshal v) else get_signed_vaa_bytes s i.
+Proof. exact lookup_after_store. Qed.
+
+(* the public RPC GetSignedVAA for a well-formed request answers exactly like the local lookup *)
+Theorem C12_rpc_lookup_exact : forall vs ec a tc sq, Forall wf vs -> length a = 32%nat -> 0 <= ec < 65536 -> 0 <= tc < 65536 -> 0 <= sq ->
+  rpc_get_signed_vaa (store_all [] vs) ec (hex a) tc sq =
+  match last_stored vs {| i_ec := ec; i_ea := a; i_tc := tc; i_seq := sq |} with Some v => ROk (marshal v) | None => RErr RNotFound end.
+Proof. exact rpc_get_history. Qed.
+
+(* GetNonGovernanceVAABatch: exactly the requested sequences that are present in that stream, each with its stored bytes *)
+Theorem C12_rpc_batch_exact : forall s ec a tc seqs, length a = 32%nat -> 0 <= ec < 65536 -> 0 <= tc < 65536 ->
+  Z.of_nat (length seqs) <= rpc_max_batch ->
+  exists l, rpc_nongov_batch s ec (hex a) tc seqs = ROk l /\
+    forall q b, In (q, b) l <-> In q seqs /\ get_signed_vaa_bytes s {| i_ec := ec; i_ea := a; i_tc := tc; i_seq := q |} = Found b.
+Proof. exact rpc_batch_exact. Qed.
+
+(* ---------------------------------------------------------------- prefixes select exactly one emitter / one stream *)
+Theorem C12_gov_prefix_iff : forall c a i, 0 <= c -> length a = 32%nat -> idwf i ->
+  (prefix_of (gov_prefix c a) (key i) = true <-> i_ec i = c /\ i_ea i = a).
+Proof. exact gov_prefix_iff. Qed.
+
+Theorem C12_gap_prefix_iff : forall c a t i, 0 <= c -> length a = 32%nat -> 0 <= t -> idwf i ->
+  (prefix_of (gap_prefix c a t) (key i) = true <-> i_ec i = c /\ i_ea i = a /\ i_tc i = t).
+Proof. exact gap_prefix_iff. Qed.
+
+(* Seek(p); ValidForPrefix(p); Next() on an ordered store visits exactly the items whose key starts with p *)
+Theorem C12_scan_is_prefix_filter : forall p s, sorted s -> scan p s = filter (has_prefix p) s.
+Proof. exact scan_filter. Qed.
+
+(* ---------------------------------------------------------------- stream isolation of the gap scan *)
+(* the answer is a function of the sequence numbers stored in exactly that stream *)
+Theorem C12_gap_depends_on_stream_only : forall vs c a t, Forall wf vs -> 0 <= c -> length a = 32%nat -> 0 <= t ->
+  find_gap (store_all [] vs) c a t = gap_of (stream_seqs vs c a t).
+Proof. exact find_gap_stream. Qed.
+
+Theorem C12_gap_isolation : forall vs vs' c a t, Forall wf vs -> Forall wf vs' -> 0 <= c -> length a = 32%nat -> 0 <= t ->
+  (forall q, present vs c a t q <-> present vs' c a t q) ->
+  find_gap (store_all [] vs) c a t = find_gap (store_all [] vs') c a t.
+Proof. exact gap_isolation. Qed.
+
+(* ... and it is exactly: the numbers of [0, max] missing in that stream, in increasing order, with max the largest
+   sequence of the stream (0 for an empty stream); first is always 0 (`first := false` in db.go) *)
+Theorem C12_gap_exact : forall vs c a t, Forall wf vs -> 0 <= c -> length a = 32%nat -> 0 <= t -> ~ present vs c a t (2 ^ 64 - 1) ->
+  exists resp last, find_gap (store_all [] vs) c a t = GapOk resp 0 last /\
+    (forall i, In i resp <-> 0 <= i <= last /\ ~ present vs c a t i) /\ StronglySorted Z.lt resp /\
+    (forall q, present vs c a t q -> q <= last) /\ (last = 0 \/ present vs c a t last).
+Proof. exact gap_exact. Qed.
+
+(* the excluded input of the previous theorem: the Go loop `i <= lastSeq` cannot terminate for lastSeq = 2^64-1 *)
+Theorem C12_gap_loop_excluded_input : forall vs c a t, Forall wf vs -> 0 <= c -> length a = 32%nat -> 0 <= t ->
+  present vs c a t (2 ^ 64 - 1) -> find_gap (store_all [] vs) c a t = GapLoop.
+Proof. exact gap_loop. Qed.
+
+(* FindMissingMessages for a well-formed request: the gap scan of that stream, each number rendered as the id text of
+   that stream (key = "signed/" ++ text) *)
+Theorem C12_find_missing_exact : forall s ec a tc, length a = 32%nat -> 0 <= ec < 65536 -> 0 <= tc < 65536 ->
+  find_missing s ec (hex a) tc =
+  match find_gap s ec a tc with
+  | GapOk ids f l => MissOk (map (fun q => msg_id_prefix ec a tc ++ dec q) ids) f l
+  | GapErr => MissErr RInternal
+  | GapLoop => MissLoop
+  end.
+Proof. exact find_missing_exact. Qed.
+
+Theorem C12_missing_id_is_key_text : forall ec a tc q,
+  key {| i_ec := ec; i_ea := a; i_tc := tc; i_seq := q |} = sgn ++ msg_id_prefix ec a tc ++ dec q.
+Proof. exact key_msg_id. Qed.
+
+(* ---------------------------------------------------------------- governance batch *)
+(* exactly the VAAs left under the governance emitter whose sequence is requested: each once, each with its own target
+   chain, sequence and bytes; nothing of any other emitter *)
+Theorem C12_gov_batch_exact : forall vs c a seqs, Forall wf vs -> 0 <= c -> length a = 32%nat ->
+  exists L, gov_batch (store_all [] vs) c a seqs = GovOk (map entry L) /\ NoDup (map id_of L) /\
+    forall v, In v L <-> live vs v /\ echain v = c /\ eaddr v = a /\ In (seq v) seqs.
+Proof. exact gov_batch_exact. Qed.
+
+Theorem C12_rpc_gov_batch : forall s c a seqs, Z.of_nat (length seqs) <= rpc_max_batch ->
+  rpc_gov_batch s c a seqs = match gov_batch s c a seqs with GovOk l => ROk l | GovErr => RErr RInternal end.
+Proof. exact rpc_gov_exact. Qed.
+
+(* ---------------------------------------------------------------- non-vacuity: the deployment's prefix-related chains *)
+Definition ex_sig : sig := {| s_idx := 0; s_data := repeat x00 65 |}.
+Definition ex_addr : bytes := repeat x00 31 ++ [x04].
+Definition ex_v (ec tc sq : Z) : vaa :=
+  {| version := vaa_version; gsidx := 0; sigs := [ex_sig]; ts := 1; tns := 0; nonce := 0; echain := ec; tchain := tc;
+     eaddr := ex_addr; seq := sq; cl := 1; payload := [x01] |}.
+(* one history: targets 2 and 255, 1 and 10 and 10001, 4 and 42 of the same emitter, overlapping sequences, an overwrite *)
+Definition ex_hist : list vaa :=
+  [ex_v 4 2 0; ex_v 4 255 7; ex_v 4 2 2; ex_v 4 1 1; ex_v 4 10 3; ex_v 4 10001 5; ex_v 4 4 0; ex_v 4 42 9; ex_v 4 2 2; ex_v 255 2 4].
+
+Example C12_hypotheses_satisfiable : Forall wf ex_hist /\ idwf (id_of (ex_v 4 2 2)) /\ length ex_addr = 32%nat.
+Proof. split; [|split; [apply wf_idwf, wfb_wf; vm_compute; reflexivity|reflexivity]]. unfold ex_hist. repeat (apply Forall_cons; [apply wfb_wf; vm_compute; reflexivity|]). apply Forall_nil. Qed.
+
+Example C12_example_streams_not_mixed :
+  find_gap (store_all [] ex_hist) 4 ex_addr 2 = GapOk [1] 0 2 /\
+  find_gap (store_all [] ex_hist) 4 ex_addr 255 = GapOk [0; 1; 2; 3; 4; 5; 6] 0 7 /\
+  find_gap (store_all [] ex_hist) 4 ex_addr 1 = GapOk [0] 0 1 /\
+  find_gap (store_all [] ex_hist) 4 ex_addr 4 = GapOk [] 0 0 /\
+  (exists L, gov_batch (store_all [] ex_hist) 4 ex_addr [2; 7; 8] = GovOk L /\ map (fun e => (g_tc e, g_seq e)) L = [(2, 2); (255, 7)]) /\
+  get_signed_vaa_bytes (store_all [] ex_hist) (id_of (ex_v 4 25 5)) = NotFound /\
+  present ex_hist 4 ex_addr 255 7 /\ ~ present ex_hist 4 ex_addr 2 7.
+Proof.
+  repeat apply conj; try (vm_compute; reflexivity).
+  - eexists. split; vm_compute; reflexivity.
+  - exists (ex_v 4 255 7). repeat apply conj; try reflexivity. right; left; reflexivity.
+  - intros (v & Hin & _ & _ & _ & Ht & Hs). cbn [ex_hist In] in Hin.
+    repeat (destruct Hin as [<-|Hin]; [cbn in Ht, Hs; try discriminate|]). destruct Hin.
+Qed.
+
+Print Assumptions C12_key_injective.
+Print Assumptions C12_get_put.
+Print Assumptions C12_lookup_exact.
+Print Assumptions C12_store_changes_only_its_id.
+Print Assumptions C12_rpc_lookup_exact.
+Print Assumptions C12_rpc_batch_exact.
+Print Assumptions C12_gov_prefix_iff.
+Print Assumptions C12_gap_prefix_iff.
+Print Assumptions C12_scan_is_prefix_filter.
+Print Assumptions C12_gap_depends_on_stream_only.
+Print Assumptions C12_gap_isolation.
+Print Assumptions C12_gap_exact.
+Print Assumptions C12_gap_loop_excluded_input.
+Print Assumptions C12_find_missing_exact.
+Print Assumptions C12_missing_id_is_key_text.
+Print Assumptions C12_gov_batch_exact.
+Print Assumptions C12_rpc_gov_batch.
